@@ -144,7 +144,12 @@ def gen_menu_tree(rng, dirsel, feature=None):
     base_sel = "" if dirsel == "/" else dirsel
     # hidden by .cap or (below) by a link block: later blocks may name the file again, it stays hidden
     link_hidden = set(n for n in names if n not in visible_after_cap)
-    for lf in sorted(rng.sample([".Links", ".names"], rng.randrange(1, 3))):
+    # sometimes no link file at all (and then often no Numb either): the order of the menu must still be the
+    # order of the titles, not of the file names
+    nlf = rng.choice([0, 1, 1, 2, 2, 2])
+    if nlf == 0:
+        feats.add("no-linkfile")
+    for lf in sorted(rng.sample([".Links", ".names"], nlf)):
         blocks = []
         for _ in range(rng.randrange(1, 5)):
             # a file is addressed by one block — or by several once a block has hidden it (it stays hidden)
